@@ -65,6 +65,16 @@ def resolve(func_node, expr, roots, aliases=None, line=None):
     """Schema path patterns denoted by expr, or None if expr is not rooted
     in the input dictionary.  roots: set of source strings denoting the data
     dict (e.g. {'data', 'self.data'}).  aliases: {local name: [paths]}."""
+    if isinstance(expr, (ast.BoolOp, ast.IfExp)):
+        # `a or []`, `a if c else b`: may denote any operand
+        parts = expr.values if isinstance(expr, ast.BoolOp) else \
+            [expr.body, expr.orelse]
+        out = []
+        for q in parts:
+            r = resolve(func_node, q, roots, aliases, line)
+            if r:
+                out += r
+        return sorted(set(out)) or None
     root, subs = chain(expr)
     rs = src(root)
     if rs in roots:
